@@ -152,7 +152,7 @@ func c01ReadyTable(e *Env, s *Sched, withReturn bool) {
 		// subject: status read of some node that is not the tested node
 		var depRoot ssa.Value
 		isDepStatus := func(v ssa.Value) bool {
-			p, ok := e.C.PathOf(v)
+			p, ok := e.pathThroughParams(v)
 			if !ok || !p.Suffix("State.Status") || sameNode(p.Root, nodeParam) {
 				return false
 			}
